@@ -24,6 +24,10 @@ inductive V (ν : Type) where
   | tt
   | ff
   | num (x : ν) (u : Nat)
+  /-- `Value::Numeric(n, false)`: a number NOT marked "calculated" — what `calc(…)` returns when it
+  reduces to a number (`sass/functions/mod.rs` `Function::call`); every other number that reaches
+  a comparison is `Numeric(n, true)` = `num` -/
+  | numAtomic (x : ν) (u : Nat)
   | str (s : List Nat) (q : Quotes)
   | color (r g b a : ν)
   | fn (id : Nat)
@@ -48,12 +52,24 @@ structure ValQuirks where
   /-- numeric.rs `impl PartialOrd for Numeric`: for two different convertible units only `other` is
   converted into `self`'s unit, so rounding of the conversion makes `a == b` depend on the order -/
   convCmpOneWay : Bool := false
+  /-- numeric.rs / operator.rs before the C11 repairs: a unitless number against a number with a
+  unit compared `Equal` as `None` (`1px <= 1` false), and an order operator on incomparable units
+  answered `false` instead of being an error -/
+  cmpOldUnitRules : Bool := false
+  /-- css/string.rs `impl PartialEq for CssString` until commit 5b7f338: two strings with the SAME
+  quote style were compared by their raw text only, so `"a" == "\\61 "` was false although both are
+  `==` to the unquoted `a` (`==` not transitive across quote styles; the C23-attr-quote-mix defect) -/
+  strEqSameQuotesRaw : Bool := false
   /-- ordermap.rs `#[derive(PartialEq)]` on `OrderMap(Vec<(K,V)>)` (until commit 001310e): map `==` is pairwise in order -/
   mapEqOrdered : Bool := false
   /-- ordermap.rs `impl PartialEq for OrderMap` since commit 001310e: equal lengths and every entry of
   the LEFT map has an `==` entry in the right one — one-sided, so `==` keys that are not
   transitive (numbers within ε) make it depend on the operand order -/
   mapEqOneSided : Bool := false
+  /-- css/value.rs `#[derive(PartialOrd)]` on `Value`: `Numeric(n, calculated)` is ordered
+  lexicographically, so when the numbers are equal the `calculated` flag decides `<`/`>`, while
+  `==` ignores it: `calc(1px) < 1px` and `calc(1px) == 1px` are both true -/
+  ordCalcFlag : Bool := false
   /-- css/value.rs `impl PartialEq for Value`: no arm for `(ArgList, ArgList)` → `false` -/
   argListNeverEqual : Bool := false
   deriving DecidableEq, Repr
@@ -61,9 +77,10 @@ structure ValQuirks where
 def spec : ValQuirks := {}
 /-- the code as it was when the checks were written (before the `fix:` commits f2e4863, 001310e) -/
 def asisOld : ValQuirks :=
-  { numEqAsymmetric := true, convCmpOneWay := true, mapEqOrdered := true, argListNeverEqual := true }
+  { numEqAsymmetric := true, convCmpOneWay := true, cmpOldUnitRules := true, strEqSameQuotesRaw := true, mapEqOrdered := true,
+    argListNeverEqual := true, ordCalcFlag := true }
 /-- the code today -/
-def asis : ValQuirks := { convCmpOneWay := true, mapEqOneSided := true, argListNeverEqual := true }
+def asis : ValQuirks := { ordCalcFlag := true }
 
 def ValQuirks.cmp (q : ValQuirks) : Num.CmpQuirks := { numEqAsymmetric := q.numEqAsymmetric }
 
